@@ -21,7 +21,8 @@ specfn('ascending', "lambda xs: forall(lambda i, j: implies(0 <= i and i < j and
 # membership of cluster k is the ascending list of the points labelled k  (quantifier-alternation free:
 # the point p labelled k sits at index cnt(labels, k, p) = number of earlier points labelled k)
 specfn('members_ok', "lambda mp, labels, k: not isnone(mp) and len(mp) == cnt(labels, k, len(labels)) and "
-       "forall(lambda p: implies(0 <= p and p < len(labels) and labels[p] == k, mp[cnt(labels, k, p)] == p)) and "
+       "forall(lambda p: implies(0 <= p and p < len(labels) and labels[p] == k, 0 <= cnt(labels, k, p) and "
+       "cnt(labels, k, p) < len(mp) and mp[cnt(labels, k, p)] == p)) and "
        "forall(lambda i: implies(0 <= i and i < len(mp), 0 <= mp[i] and mp[i] < len(labels) and labels[mp[i]] == k)) and "
        "ascending(mp)")
 # well-formed model state: K clusters, pairwise distinct objects with pairwise distinct member lists, labels in
@@ -30,9 +31,7 @@ specfn('wf', "lambda m: not isnone(m.clusters) and not isnone(m._point_labels) a
        "len(m.clusters) == m.arguments.num_clusters and "
        "forall(0, len(m._point_labels), lambda p: 0 <= m._point_labels[p] and m._point_labels[p] < m.arguments.num_clusters) and "
        "forall(0, len(m.clusters), lambda k: not isnone(m.clusters[k]) and members_ok(m.clusters[k]._member_points, m._point_labels, k)) and "
-       "forall(lambda k1, k2: implies(0 <= k1 and k1 < k2 and k2 < len(m.clusters), not same(m.clusters[k1], m.clusters[k2]) and "
-       "not same(m.clusters[k1]._member_points, m.clusters[k2]._member_points))) and "
-       "forall(0, len(m.clusters), lambda k: not same(m.clusters[k]._member_points, m._point_labels))")
+       "forall(lambda k1, k2: implies(0 <= k1 and k1 < k2 and k2 < len(m.clusters), not same(m.clusters[k1], m.clusters[k2])))")
 
 _ARR2 = 'arr2[real]'
 _CP_PARAMS = dict(self='obj:ClusterParameters', computed_covariance=_ARR2, empirical_covariance=_ARR2,
